@@ -149,6 +149,21 @@ def scenario(name, path):
         pt = ancilla_pt(n, with_caps="nocaps" not in name, transforms=name.endswith("T"))
         pt.export(path, overwrite="over" in name)
         return
+    if name.startswith("stream"):
+        # a user script that streams tensors into a file-backed process tensor and keeps its labels up to date
+        from oqupy.process_tensor import FileProcessTensor
+        n = int(name[6])
+        src = ancilla_pt(n)
+        fpt = FileProcessTensor("write", filename=path, hilbert_space_dimension=2, dt=0.25)
+        fpt.name = "streamed"
+        for k in range(n):
+            fpt.set_mpo_tensor(k, np.array(src.get_mpo_tensor(k, transformed=False)))
+            fpt.description = "%d of %d tensors written" % (k + 1, n)
+        for k in range(n + 1):
+            fpt.set_cap_tensor(k, np.array(src.get_cap_tensor(k)))
+        fpt.description = "complete"
+        fpt.close()
+        return
     if name.startswith("ptcompute"):
         # the pt_tempo_compute() shortcut with a file-backed process tensor
         from harness import probes
